@@ -20,4 +20,5 @@ echo "== check $PROP ($TIER)"
 cd /verif && VERIF_REPO=$WT ./check $PROP --tier $TIER 2>&1 | tail -4
 git -C /repo worktree remove --force $WT
 # scratch outputs and binaries built against the worktree
-find /verif/.work -maxdepth 2 -regextype posix-extended -regex '.*-[0-9a-f]{8}' -exec rm -rf {} + 2>/dev/null
+TAG=$(printf %s "$WT" | sha1sum | cut -c1-8)
+find /verif/.work -maxdepth 2 -name "*-$TAG" -exec rm -rf {} + 2>/dev/null
